@@ -458,7 +458,23 @@ func (gen *generator) irFuncDecl(new *ir.Func, old *ast.FuncDecl) error {
 	}
 	new.Metadata = md
 	// Function header.
-	return gen.irFuncHeader(new, old.Header())
+	if err := gen.irFuncHeader(new, old.Header()); err != nil {
+		return errors.WithStack(err)
+	}
+	// Check the explicit IDs of the parameters, as for a function definition;
+	// a declaration with misnumbered parameters would otherwise be accepted
+	// and fail when printed.
+	fgen := newFuncGen(gen, new)
+	zero := fgen.explicitZeroIDs(old.Header().Params().Params(), nil)
+	if err := new.AssignIDs(); err != nil {
+		return errors.WithStack(err)
+	}
+	for _, v := range zero {
+		if v.ID() != 0 {
+			return errors.Errorf("invalid local ID in function %q, expected %s, got %s", new.Ident(), enc.LocalID(v.ID()), enc.LocalID(0))
+		}
+	}
+	return nil
 }
 
 // --- [ Function definitions ] ------------------------------------------------
